@@ -28,7 +28,11 @@ CONSTANTS Keys,        \* validator identities
           Powers,      \* powers a ValidatorUpdate may carry (0 = remove)
           MaxTxs,      \* validator updates per block
           MaxBlocks,
-          PostAspen    \* TRUE: individual-validator storage with immediate effect; FALSE: the legacy set, updated at end of block
+          PostAspen,   \* the storage format at genesis. TRUE: individual-validator storage with immediate effect;
+                       \* FALSE: the legacy set, updated at end of block
+          AllowUpgrade \* TRUE: the Aspen upgrade may activate at any block boundary of a legacy history
+                       \* (authority/component.rs handle_aspen_upgrade: the legacy set is migrated entry by entry
+                       \* into individual storage and the count is written), so one history spans both formats
 
 None == 99   \* "no update for this key in the block"
 \* genesis sets (functions Keys -> power, 0 = absent): a single validator, and two validators
@@ -46,24 +50,26 @@ VARIABLES stored,    \* [Keys -> power]: the application's set (0 = absent)
           stored0, count0,   \* the application's set and count when the block started: every transaction of a block is
                              \* *constructed* (mutable checks included) against that state -- by CheckTx before it
                              \* enters the mempool, by process_proposal / finalize_block before executing any of them
+          post,      \* the storage format in force for the current block (PostAspen at genesis; flips once at Aspen)
           last, ntx, nblk
-vars == <<stored, count, upd, comet, cometErr, dev, stored0, count0, last, ntx, nblk>>
+vars == <<stored, count, upd, comet, cometErr, dev, stored0, count0, post, last, ntx, nblk>>
 
 Card(f) == Cardinality({k \in Keys : f[k] > 0})
 
 Init == /\ stored \in Genesis /\ comet = stored /\ count = Card(stored)
         /\ upd = [k \in Keys |-> None] /\ cometErr = "" /\ dev = ""
         /\ stored0 = stored /\ count0 = count
+        /\ post = PostAspen
         /\ last = [op |-> "init"] /\ ntx = 0 /\ nblk = 0
 
 \* ValidatorUpdate(v, p) signed by the sudo address (authority is decided in Ledger.tla)
 Update(v, p) ==
   /\ ntx < MaxTxs /\ nblk < MaxBlocks /\ cometErr = ""
-  /\ ntx' = ntx + 1 /\ UNCHANGED <<comet, cometErr, nblk, stored0, count0>>
+  /\ ntx' = ntx + 1 /\ UNCHANGED <<comet, cometErr, nblk, stored0, count0, post>>
   \* only transactions that can be constructed against the block's start state are ever in a block
-  /\ IF PostAspen THEN p > 0 \/ (count0 > 1 /\ stored0[v] > 0)
+  /\ IF post THEN p > 0 \/ (count0 > 1 /\ stored0[v] > 0)
                   ELSE p > 0 \/ (stored0[v] > 0 /\ Card(stored0) # 1)
-  /\ IF PostAspen THEN
+  /\ IF post THEN
        LET exists == stored[v] > 0
            ok == p > 0 \/ (count > 1 /\ exists)
        IN IF ~ok
@@ -98,16 +104,19 @@ EndBlock ==
   /\ nblk < MaxBlocks /\ cometErr = ""
   /\ LET batch == upd
          r == ApplyComet(comet, batch)
-         st2 == IF PostAspen THEN stored
+         st2 == IF post THEN stored
                 ELSE [k \in Keys |-> IF batch[k] = None THEN stored[k] ELSE batch[k]]   \* apply_updates at end of block
-     IN /\ stored' = st2 /\ count' = IF PostAspen THEN count ELSE Card(st2)
+     IN /\ stored' = st2 /\ count' = IF post THEN count ELSE Card(st2)
         /\ comet' = r.set /\ cometErr' = r.err
         /\ upd' = [k \in Keys |-> None] /\ ntx' = 0 /\ nblk' = nblk + 1
-        /\ stored0' = st2 /\ count0' = IF PostAspen THEN count ELSE Card(st2)
+        \* the next block may be the one at which Aspen activates: the upgrade runs before any of its transactions,
+        \* keeps the set as it is and writes its size as the count (already maintained above for the legacy format)
+        /\ post' \in (IF post \/ ~AllowUpgrade THEN {post} ELSE {FALSE, TRUE})
+        /\ stored0' = st2 /\ count0' = IF post THEN count ELSE Card(st2)
         \* the two known ways a batch becomes inapplicable; anything else is unexpected
         /\ dev' = IF r.err = "" THEN dev
-                  ELSE IF PostAspen /\ r.err = "remove-unknown-validator" THEN "add-then-remove-in-one-block"
-                  ELSE IF ~PostAspen /\ r.err = "empty-validator-set" THEN "two-removals-empty-the-set"
+                  ELSE IF post /\ r.err = "remove-unknown-validator" THEN "add-then-remove-in-one-block"
+                  ELSE IF ~post /\ r.err = "empty-validator-set" THEN "two-removals-empty-the-set"
                   ELSE "UNEXPECTED"
         /\ last' = [op |-> "end_block", batch |-> {<<k, batch[k]>> : k \in {x \in Keys : batch[x] # None}}]
 
@@ -130,7 +139,7 @@ NeverEmptyOrKnown == NeverEmpty \/ Known
 
 -----------------------------------------------------------------------------
 Proj(s, c, u) == [stored |-> s, count |-> c, upd |-> {<<k, u[k]>> : k \in {x \in Keys : u[x] # None}}]
-LogStep == PrintT(<<"T", ToJson([s |-> [st |-> Proj(stored, count, upd), comet |-> comet, nblk |-> nblk, err |-> cometErr],
+LogStep == PrintT(<<"T", ToJson([s |-> [st |-> Proj(stored, count, upd), comet |-> comet, nblk |-> nblk, err |-> cometErr, post |-> post],
                                  a |-> last', dev |-> dev',
-                                 t |-> [st |-> Proj(stored', count', upd'), comet |-> comet', nblk |-> nblk', err |-> cometErr']])>>)
+                                 t |-> [st |-> Proj(stored', count', upd'), comet |-> comet', nblk |-> nblk', err |-> cometErr', post |-> post']])>>)
 =============================================================================
